@@ -359,6 +359,10 @@ class World(Domain):
         # structural short-cuts on symbolic integers
         if isinstance(a, SymInt) and isinstance(b, SymInt) and a.t == b.t:
             return True, op in ("==", "<=", ">=")
+        if op in ("<", "<=", ">", ">=") and isinstance(a, AObj):
+            hit, r = self._dunder(it, a, {"<": "__lt__", "<=": "__le__", ">": "__gt__", ">=": "__ge__"}[op], [b])
+            if hit:
+                return hit, r
         if op in ("==", "!=") and (isinstance(a, SymStr) or isinstance(b, SymStr)) and \
                 (isinstance(a, (str, SymStr)) and isinstance(b, (str, SymStr))):
             r = self._symstr_eq(a, b)
@@ -502,7 +506,32 @@ class World(Domain):
     def format_percent(self, it, fmt, vals):
         return True, SymStr([fmt] + list(vals))
 
+    _DUNDER = {"+": "add", "-": "sub", "*": "mul", "/": "truediv", "//": "floordiv", "%": "mod", "&": "and",
+               "|": "or", "^": "xor", "<<": "lshift", ">>": "rshift", "**": "pow"}
+
+    def _dunder(self, it, obj, name, args):
+        if isinstance(obj, AObj) and obj.cls in self.repo.classes:
+            q, f = self.repo.find_method(obj.cls, name)
+            if f is not None:
+                return True, it.call(it.getattr(obj, name), args)
+        return False, None
+
+    def unop(self, it, op, v):
+        name = {"USub": "__neg__", "Invert": "__invert__", "UAdd": "__pos__"}.get(op)
+        if name:
+            return self._dunder(it, v, name, [])
+        return False, None
+
     def binop(self, it, op, a, b):
+        d = self._DUNDER.get(op)
+        if d and isinstance(a, AObj):
+            hit, r = self._dunder(it, a, "__%s__" % d, [b])
+            if hit:
+                return hit, r
+        if d and isinstance(b, AObj):
+            hit, r = self._dunder(it, b, "__r%s__" % d, [a])
+            if hit:
+                return hit, r
         if isinstance(a, SymStr) or isinstance(b, SymStr):
             if op == "+":
                 return True, SymStr([a, b])
